@@ -15,6 +15,7 @@ UNITS = {
     "drv": ("units/drv.rs", None),
     "final": ("units/final.rs", None),
     "rank": ("units/rank.rs", None),
+    "quant": ("units/quant.rs", None),
     "gen": ("units/gen.rs", None),
     "parse": ("units/parse.rs", None),
     "cmp": ("units/cmp.rs", None),
@@ -99,7 +100,7 @@ PLAN["C09"] = dict(
     level="proof",
 )
 PLAN["C10"] = dict(
-    verus=dict(quick=["drv", "cmp", "rank"], thorough=["drv", "cmp", "rank"]),
+    verus=dict(quick=["drv", "cmp", "rank", "quant"], thorough=["drv", "cmp", "rank", "quant"]),
     kani=dict(quick=[], thorough=[]),
     level="proof",
 )
@@ -117,7 +118,7 @@ PLAN["C19"] = dict(
 )
 
 PLAN["C12"] = dict(
-    verus=dict(quick=["rank"], thorough=["rank"]),
+    verus=dict(quick=["rank", "quant"], thorough=["rank", "quant"]),
     kani=dict(quick=[], thorough=[]),
     level="proof",
 )
